@@ -22,9 +22,70 @@ ASSUMPTIONS = ["std::condition_variable semantics (atomic unlock-and-wait, spuri
 CLS = "gmlc::concurrency::Latch"
 
 
+def derived_flag(ctx):
+    """representation anchor: the member the waiters actually wait on, when that is not counter_ (an `open` flag kept next
+    to the count).  Returns its name or None."""
+    from ..cv import predicate_lambda, shared_fields_read
+    for f, top, st in cv_waits(ctx, CLS, "cv"):
+        g = predicate_lambda(ctx, f, st)
+        if g is not None:
+            reads = shared_fields_read(ctx, g, CLS, site=f)
+            if reads and "counter_" not in reads:
+                return reads[0]
+    return None
+
+
+def derived_rules(ctx, flag):
+    """what can be said about a latch whose waiters watch a flag derived from the count: the flag starts out from the
+    constructor's count (a latch built with nothing to wait for is open), is only ever set - never cleared - outside the
+    constructors, and is set where the count is seen to have reached zero"""
+    rid = "C10.derived"
+    ctx.rule(rid, "a flag the waiters watch instead of counter_ mirrors it: initialised from the count, set when zero is reached, never cleared", floor=1)
+    fb = ctx.fb
+    for f in fb.functions(rec=CLS):
+        if f.kind != "ctor" or f.defaulted or not f.params:
+            continue
+        ini = [i for i in f.inits if i.get("field") == flag and i.get("written")]
+        src = f.s(ini[0]["init"]) if ini else None
+        ok = src is not None and any(d["k"] == "DeclRefExpr" and d["d"].get("k") == "param" for d in [src] + list(f.descendants(src)))
+        ctx.ob(rid, ok, f.where, "%s starts out from the count the latch is constructed with" % flag, "" if ok else
+               "%s gets a fixed initial value: a latch constructed with a count of zero (an empty batch) is never opened by any "
+               "arrival and its waiters block for ever" % flag, fn=f.label, inst=f.qname)
+    vals = set()
+    for f, top in class_functions(fb, CLS):
+        if top.kind in ("ctor", "dtor"):
+            continue
+        for op in atomic_ops(f):
+            if atomic_field_of(f, op) == (CLS, flag) and op["op"] in ("store", "rmw", "cas"):
+                v = unwrap(f, op["value"]) if op.get("value") is not None else None
+                vals.add(path(f, v) or (v or {}).get("v") if v is not None else None)
+                pos = f.pos_of(op["st"])
+                guarded_by_zero = False
+                for b, blk in f.blocks.items():
+                    if blk.term and blk.term.get("cond") and len(blk.succs) == 2 and pos is not None:
+                        for i_, s_ in enumerate(blk.succs):
+                            if s_ is not None and f.dominates_block(s_, pos[0]) and len(f.blocks[s_].preds) == 1:
+                                if _says_open(f, f.s(blk.term["cond"]), i_ == 0) is True:
+                                    guarded_by_zero = True
+                ctx.ob(rid, guarded_by_zero, f.loc(op["st"]), "%s is set where the count was just seen to have reached zero" % flag,
+                       "" if guarded_by_zero else "the store is not on the 'count reached' side of a test of counter_", fn=top.label, inst=f.qname)
+    ctx.ob(rid, len(vals) <= 1, "gmlc/concurrency/Latch.hpp", "%s is only ever set to one value after construction (an open latch stays open)" % flag,
+           "" if len(vals) <= 1 else "values stored: %s" % sorted(str(v) for v in vals))
+
+
 def run(ctx):
     ctx.rule("C10.guard", "every modification of counter_ happens with mtx held", floor=1)
     ctx.step(check_guarded_fields, ctx, "C10.guard", CLS)
+    flag = derived_flag(ctx)
+    if flag:
+        ctx.step(derived_rules, ctx, flag)
+        ctx.unknown("C10: the waiters of Latch wait on %s, a member derived from counter_; the rules about the wait condition "
+                    "(C10.cv, C10.stable, C10.exit) describe waiting on counter_ itself and do not judge this representation" % flag)
+        ctx.step(initial, ctx)
+        ctx.step(nonblock, ctx)
+        ctx.step(common.atomic_floors, ctx, "C10.orders", [CLS], floor=2, files=["Latch.hpp"])
+        ctx.step(common.raii_only, ctx, "C10.raii", ["Latch.hpp"], floor=3)
+        return
     ctx.rule("C10.cv", "wait: lock owns mtx; predicate-less wait sits in a loop re-checking counter_", floor=1)
     ws = ctx.step(check_waits, ctx, "C10.cv", CLS, "cv", "mtx", ["counter_"]) or []
     ctx.step(stable, ctx, ws)
@@ -246,6 +307,23 @@ def _says_open(f, cond, val, depth=0):
     return False
 
 
+def _memo_by_identity(ctx, f, cond):
+    """the test compares a static / thread_local variable with a CONST data member of the latch (an identity the object
+    keeps for life) - not with `this`, whose value the next object at the same address has too"""
+    ds = [cond] + list(f.descendants(cond))
+    statics = [d for d in ds if d["k"] == "DeclRefExpr" and d["d"].get("k") in ("static_local", "static_member", "global")]
+    if any(d["k"] == "CXXThisExpr" and not any(m["k"] == "MemberExpr" and m.get("base") == d["id"] for m in ds) for d in ds):
+        return False
+    consts = []
+    for d in ds:
+        if d["k"] == "MemberExpr" and d["m"].get("is_field"):
+            for r_ in ctx.fb.records(tmpl=CLS):
+                fl = r_.field(d["m"]["name"])
+                if fl is not None and (fl.get("const") or fl["type"].startswith("const ")):
+                    consts.append(d)
+    return bool(statics) and bool(consts)
+
+
 def exit_rule(ctx, rid="C10.exit"):
     """wait() returns only on an OBSERVATION that the count has been reached: every path from its entry to a return
     passes a test of counter_ whose outcome says 'not above zero' (the unlocked fast path, the loop condition, or a
@@ -288,6 +366,11 @@ def exit_rule(ctx, rid="C10.exit"):
                             if len(rets) == 1 and _says_open(g, g.children(rets[0])[0], True) is True:
                                 seen = True
             if not seen:
+                if last_branch is not None and _memo_by_identity(ctx, f, last_branch):
+                    ctx.unknown("%s: wait() returns at %s on a remembered answer keyed by a constant member of the latch; whether that "
+                                "key is never reused (so that the memory can only come from THIS latch having been seen open) is a "
+                                "value property these rules do not decide" % (rid, f.loc(last_branch)))
+                    continue
                 bad = "a path returns without having seen counter_ <= 0 (last test on it: %s)" % (
                     f.loc(last_branch) if last_branch is not None else "none")
                 break
